@@ -123,6 +123,12 @@ double PowellMultiDimensions::doStep()
         xi_[j][n - 1] = xit[j];
       }
     }
+    else
+    {
+      // The direction set is kept: the function is at the extrapolated point, put it back at the parameters.
+      getFunction()->setParameters(getParameters());
+      nbEval_++;
+    }
   }
   else
   {
